@@ -171,11 +171,89 @@ fn roundtrip_case(rep: &mut Report, c: RegisteredClaims, class: &str) {
         Ok(Err(e)) => rep.violation("C14|claims|own-wire-form-rejected", detail(&e.to_string())),
         Err(pn) => rep.violation("C14|claims|decode-panic", detail(&pn)),
     }
+    serde_paths(rep, &c, &wire);
     rep.sample_class(class, 2, || detail("round-trips exactly"));
 }
 
 /// a random JSON object around the registered members: unknown members, any order, duplicates,
 /// nulls, wrong types, deep nesting
+/// RegisteredClaims through the other ways serde can reach it: as a value (`from_value` / `to_value`),
+/// nested in an application struct, flattened into one next to a catch-all map. All must read and write
+/// exactly what the direct decoder / encoder does.
+fn serde_paths(rep: &mut Report, c: &RegisteredClaims, wire: &[u8]) {
+    #[derive(serde::Serialize, serde::Deserialize)]
+    struct Nested {
+        id: u32,
+        claims: RegisteredClaims,
+    }
+    #[derive(serde::Serialize, serde::Deserialize)]
+    struct Flat {
+        #[serde(flatten)]
+        claims: RegisteredClaims,
+        #[serde(flatten)]
+        rest: std::collections::BTreeMap<String, Value>,
+    }
+    #[derive(serde::Serialize, serde::Deserialize)]
+    struct FlatWithOwn {
+        app: String,
+        #[serde(flatten)]
+        claims: RegisteredClaims,
+    }
+    let Ok(v) = serde_json::from_slice::<Value>(wire) else { return };
+    let d = |what: &str| json!({"claims": show(c), "wire": String::from_utf8_lossy(wire).chars().take(300).collect::<String>(), "what": what});
+    let res = guard(|| {
+        let mut bad: Vec<String> = vec![];
+        match serde_json::from_value::<RegisteredClaims>(v.clone()) {
+            Ok(x) if claims_eq(&x, c) => {}
+            other => bad.push(format!("from_value: {:?}", other.map(|x| show(&x)).map_err(|e| e.to_string()))),
+        }
+        match serde_json::to_value(c) {
+            Ok(x) if x == v => {}
+            other => bad.push(format!("to_value: {:?}", other.map_err(|e| e.to_string()))),
+        }
+        match serde_json::from_value::<Nested>(json!({"id": 7, "claims": v.clone()})) {
+            Ok(x) if claims_eq(&x.claims, c) => {}
+            other => bad.push(format!("nested: {:?}", other.map(|x| show(&x.claims)).map_err(|e| e.to_string()))),
+        }
+        let mut with_extra = v.clone();
+        if let Some(m) = with_extra.as_object_mut() {
+            m.insert("x-app".into(), json!([1, 2]));
+        }
+        match serde_json::from_value::<Flat>(with_extra.clone()) {
+            Ok(x) if claims_eq(&x.claims, c) && x.rest.len() == 1 && x.rest.contains_key("x-app") => {}
+            Ok(x) => bad.push(format!("flattened: claims {} ; catch-all map holds {:?}", show(&x.claims), x.rest.keys().collect::<Vec<_>>())),
+            Err(e) => bad.push(format!("flattened: {e}")),
+        }
+        match serde_json::from_slice::<Flat>(&serde_json::to_vec(&with_extra).unwrap()) {
+            Ok(x) if claims_eq(&x.claims, c) && x.rest.len() == 1 => {}
+            other => bad.push(format!("flattened (from_slice): {:?}", other.map(|x| show(&x.claims)).map_err(|e| e.to_string()))),
+        }
+        let f = FlatWithOwn { app: "a".into(), claims: c.clone() };
+        match serde_json::to_value(&f).ok().and_then(|mut x| {
+            x.as_object_mut().map(|m| m.remove("app"));
+            Some(x)
+        }) {
+            Some(x) if x == v => {}
+            other => bad.push(format!("flattened serialisation: {other:?}")),
+        }
+        match <paseto_json::Json<Flat> as Payload>::decode(&serde_json::to_vec(&with_extra).unwrap()) {
+            Ok(x) if claims_eq(&x.0.claims, c) => {}
+            other => bad.push(format!("Json<flattened>: {:?}", other.map(|x| show(&x.0.claims)).map_err(|e| e.to_string()))),
+        }
+        bad
+    });
+    match res {
+        Ok(bad) => {
+            for b in bad {
+                let path = b.split(':').next().unwrap_or("").to_string();
+                rep.violation(&format!("C14|claims|serde-path-differs:{path}"), d(&b));
+            }
+            rep.count("serde-paths-checked");
+        }
+        Err(pn) => rep.violation("C14|claims|serde-path-panic", d(&pn)),
+    }
+}
+
 fn gen_object_text(rng: &mut Rng) -> String {
     let names = ["iss", "sub", "aud", "jti", "exp", "nbf", "iat", "extra", "ISS", "iss ", "", "é", "exp2", "data"];
     let n = rng.below(10);
@@ -454,7 +532,7 @@ pub fn run(opts: &Opts) {
     json_wrapper_cases(opts, &mut rep, &mut idx);
     rep.set(
         "rule",
-        json!("(1b) exp/nbf/iat correlated: six base instants x 17 x 17 offsets from 0 to +-1 s (1 ns, sub-microsecond, sub-millisecond, sub-second) in three role orders; (1) all 2^7 presence patterns of RegisteredClaims x strings (ASCII, escapes, NUL, U+2028, astral plane, random scalar values, 64 KiB) x timestamps (jiff MIN/MAX, epoch +-1ns, whole seconds, random at ns resolution): encode, inspect the wire form with serde_json::Value (object, only present claims, strings equal, timestamps parsed by the harness's own strict RFC 3339 parser and compared to the nanosecond for years 0000..9999), decode and compare field-wise; (2) generated JSON objects with unknown / duplicated / null / wrong-typed / deeply nested members and several timestamp spellings, plus permutations of the seven members: whenever decode succeeds every claim must equal what serde_json::Value reads for that member; (3) Json<T> payload and footer wrappers against serde_json::{to_vec, from_slice}, empty footer rejected; a third of the encodes are preceded on the same thread by an encode that must be refused after producing output (failing Serialize impl, non-string map keys); distinct = distinct claims values / input texts"),
+        json!("every encoded claims value is also read and written through the other serde paths (from_value / to_value, nested in a struct, #[serde(flatten)] next to a catch-all map, Json<flattened>) and must agree with the direct decoder / encoder; (1b) exp/nbf/iat correlated: six base instants x 17 x 17 offsets from 0 to +-1 s (1 ns, sub-microsecond, sub-millisecond, sub-second) in three role orders; (1) all 2^7 presence patterns of RegisteredClaims x strings (ASCII, escapes, NUL, U+2028, astral plane, random scalar values, 64 KiB) x timestamps (jiff MIN/MAX, epoch +-1ns, whole seconds, random at ns resolution): encode, inspect the wire form with serde_json::Value (object, only present claims, strings equal, timestamps parsed by the harness's own strict RFC 3339 parser and compared to the nanosecond for years 0000..9999), decode and compare field-wise; (2) generated JSON objects with unknown / duplicated / null / wrong-typed / deeply nested members and several timestamp spellings, plus permutations of the seven members: whenever decode succeeds every claim must equal what serde_json::Value reads for that member; (3) Json<T> payload and footer wrappers against serde_json::{to_vec, from_slice}, empty footer rejected; a third of the encodes are preceded on the same thread by an encode that must be refused after producing output (failing Serialize impl, non-string map keys); distinct = distinct claims values / input texts"),
     );
     rep.finish(opts);
 }
